@@ -201,3 +201,10 @@ package eni
 //@ # the answer channel is unbuffered: commit can hand an address over only to a caller that is there to take it; when the
 //@ # caller is gone the select in commit takes the cancellation branch and the owner mark is rolled back
 //@ guard makechan * in Allocate: size == 0
+
+//@ for C19
+
+//@ # ---- the interface slots published for a node (its flavor) add up to the attachable secondary interfaces: adapters - 1 ----
+//@ pure func flavorSum(s []networkv1beta1.Flavor) int = ite(len(s) > 0, s[0].Count, 0) + ite(len(s) > 1, s[1].Count, 0) + ite(len(s) > 2, s[2].Count, 0)
+//@ # the list is complete when the standard secondary entry (always written last) has been appended
+//@ guard store NodeSpec.Flavor in Reconcile: !(len(value) > 0 && value[len(value) - 1].NetworkInterfaceType == "Secondary" && value[len(value) - 1].NetworkInterfaceTrafficMode == "Standard") || (len(value) <= 3 && flavorSum(value) == target.Spec.NodeCap.Adapters - 1)
